@@ -28,6 +28,9 @@ def L17_CreateConnectionCode : List String := ["codeQuotaMu.Lock", "defer codeQu
 def L17_ListByTargetClient : List String := ["listStore.GetList", "r.GetByID", "listStore.RemoveFromList"]
 def L17_NewSessionManager : List String := ["NewClientRegistry", "@config.MaxControlConnections", "NewTunnelRegistry"]
 def L17_RegisterControlConnection : List String := ["clientRegistry.Register"]
+def L17_ReleaseClaim : List String := ["storage.Delete"]
+def L17_RevokeConnectionCode : List String := ["s.claimCode", "defer release", "connCodeRepo.GetByCode", "connCode.Revoke", "connCodeRepo.Update"]
+def L17_TryClaim : List String := ["casStore.SetNX"]
 def L17_handleConnection : List String := ["acquireConnectionSlot", "sync.OnceFunc", "@h.releaseConnectionSlot", "@slotOwnedByTunnel", "@slotOwnedByTunnel", "releaseSlot", "adapter.PrepareConnection", "client.CheckMappingQuota", "client.DialTunnel", "tunnel.NewTunnel", "releaseSlot", "tunnelManager.RegisterTunnel", "tun.Start", "@slotOwnedByTunnel"]
 end Skel
 
@@ -186,6 +189,28 @@ def L17_CountActiveByTargetClient : List String := [
   "end",
   "end",
   "return count, nil"
+]
+def L17_CodeUpdate : List String := [
+  "if err := code.Validate(); err != nil",
+  "return coreerrors.Wrap(err, coreerrors.CodeValidationError, \"invalid connection code\")",
+  "end",
+  "data, err := json.Marshal(code)",
+  "if err != nil",
+  "return coreerrors.Wrap(err, coreerrors.CodeInternal, \"failed to marshal connection code\")",
+  "end",
+  "ttl := code.TimeRemaining()",
+  "if ttl <= 0",
+  "return r.Delete(code.ID)",
+  "end",
+  "keyByCode := constants.KeyPrefixRuntimeConnectionCodeByCode + code.Code",
+  "if err := r.storage.Set(keyByCode, string(data), ttl); err != nil",
+  "return coreerrors.Wrap(err, coreerrors.CodeStorageError, \"failed to update connection code by code\")",
+  "end",
+  "keyByID := constants.KeyPrefixRuntimeConnectionCodeByID + code.ID",
+  "if err := r.storage.Set(keyByID, string(data), ttl); err != nil",
+  "return coreerrors.Wrap(err, coreerrors.CodeStorageError, \"failed to update connection code by ID\")",
+  "end",
+  "return nil"
 ]
 end Flow
 
